@@ -5,6 +5,8 @@ import (
 	"fmt"
 	"sort"
 
+	"golang.org/x/crypto/sha3"
+
 	imldsa "github.com/tink-crypto/tink-go/v2/internal/signature/mldsa"
 	"github.com/tink-crypto/tink-go/v2/verifharness/hx"
 )
@@ -164,7 +166,8 @@ func genNTT(r *hx.Rng, n int) []string {
 		case i < 10:
 			p[[]int{0, 1, 127, 128, 255, r.Intn(256)}[i-4]] = 1 + uint32(r.Intn(q-1))
 			tag = "?delta"
-		case i%16 == 15:
+		case i == 10 || i == 11:
+			// arbitrary uint32 coefficients (the model follows the generated kernels; slow)
 			p = randPoly(r, 1<<32-1)
 			tag = "?noncanon"
 		default:
@@ -645,21 +648,83 @@ func (b *base) boundary(r *hx.Rng, tries int) (zb, hb []string) {
 	return []string{vfLine(p, b.pkb, bestZm, nil, bestZ, zt)}, []string{vfLine(p, b.pkb, bestHm, nil, bestH, ht)}
 }
 
+func shake256(n int, parts ...[]byte) []byte {
+	h := sha3.NewShake256()
+	for _, x := range parts {
+		h.Write(x)
+	}
+	out := make([]byte, n)
+	h.Read(out)
+	return out
+}
+
+// iterations recovers the number of rounds of the rejection loop that
+// produced sig = signInternalWithMu(mu, rnd): z - ExpandMask(rhopp, kappa) is
+// c*s1, of norm <= beta, only for the kappa of the accepted round.  (Used by
+// the generator to keep the cost of the model's signing runs bounded; the
+// count is recorded in the tag.)
+func iterations(p *pset, skEnc, mp, rnd, sig []byte) int {
+	K, tr := skEnc[32:64], skEnc[64:128]
+	mu := shake256(64, tr, mp)
+	rhopp := shake256(64, K, rnd, mu)
+	zOff, _, _ := p.regions()
+	step := 32 * (1 + p.lg1)
+	z0 := imldsa.VerifBitUnpack(sig[zOff:zOff+step], 1<<p.lg1, p.lg1+1)
+	beta := int64(p.tau * p.eta)
+	for it := 0; it < 1000; it++ {
+		kappa := it * p.l
+		y0 := imldsa.VerifBitUnpack(shake256(step, rhopp, []byte{byte(kappa), byte(kappa >> 8)}), 1<<p.lg1, p.lg1+1)
+		ok := true
+		for j := range z0 {
+			d := cmod(int64(z0[j])-int64(y0[j]), q)
+			if d > beta || d < -beta {
+				ok = false
+				break
+			}
+		}
+		if ok {
+			return it + 1
+		}
+	}
+	return 0
+}
+
+// cheapMsg draws messages until signing (formatted message 0‖|ctx|‖ctx‖msg,
+// randomness rnd) takes at most maxIt rounds.
+func cheapMsg(r *hx.Rng, b *base, ctx, rnd []byte, maxIt int) ([]byte, int) {
+	skEnc := b.sk.Encode()
+	for {
+		msg := msgOf(r)
+		var rr [32]byte
+		copy(rr[:], rnd)
+		mp := formatMsg(msg, ctx)
+		it := iterations(b.p, skEnc, mp, rr[:], imldsa.VerifSignInternal(b.sk, mp, rr))
+		if it == 0 {
+			panic("cannot recover the number of signing rounds")
+		}
+		if it <= maxIt {
+			return msg, it
+		}
+	}
+}
+
 type budget struct {
-	kg, sg, vfFull, vfCheap, ts, tv, ph, search int
+	kg, sg, vfFull, vfCheap, ts, tv, ph, search, maxIt int
 }
 
 func gen(r *hx.Rng, n int, tier string) []string {
-	bd := budget{kg: 1, sg: 1, vfFull: 5, vfCheap: 8, ts: 1, tv: 2, ph: 1, search: 1500}
+	bd := budget{kg: 1, sg: 1, vfFull: 5, vfCheap: 8, ts: 1, tv: 2, ph: 1, search: 1000, maxIt: 3}
 	if tier == "thorough" {
-		bd = budget{kg: 8, sg: 6, vfFull: 40, vfCheap: 40, ts: 4, tv: 8, ph: 3, search: 20000}
+		bd = budget{kg: 8, sg: 6, vfFull: 40, vfCheap: 40, ts: 4, tv: 8, ph: 3, search: 20000, maxIt: 1000}
 	}
 	var out []string
 	for _, s := range []string{"44", "65", "87"} {
 		out = append(out, fmt.Sprintf("C10|par|%s|?", s))
 	}
 	out = append(out, "C10|zt|?")
-	phSet := r.Intn(3) // quick tier: the prehash path on one parameter set per run
+	phSet := r.Intn(3) // quick tier: the prehash path and the Tink signer on one parameter set per run
+	tsSet := r.Intn(3)
+	hedge := r.Intn(2)
 	for si, s := range []string{"44", "65", "87"} {
 		p := set(s)
 		b := newBase(r, p)
@@ -671,16 +736,15 @@ func gen(r *hx.Rng, n int, tier string) []string {
 			out = append(out, fmt.Sprintf("C10|kg|%s|%s|?", s, hx.H(seed)))
 		}
 		for i := 0; i < bd.sg; i++ {
-			rnd := "d"
-			if (i+si)%2 == 1 {
-				rnd = hx.H(r.Bytes(32))
+			rnd, rb := "d", make([]byte, 32)
+			tag := "+det"
+			if (i+si+hedge)%2 == 1 {
+				rb = r.Bytes(32)
+				rnd, tag = hx.H(rb), "+hedged"
 			}
 			ctx := ctxOf(r)
-			tag := "+det"
-			if rnd != "d" {
-				tag = "+hedged"
-			}
-			out = append(out, fmt.Sprintf("C10|sg|%s|%s|%s|%s|%s|%s", s, hx.H(b.seed), hx.H(msgOf(r)), hx.H(ctx), rnd, tag))
+			msg, it := cheapMsg(r, b, ctx, rb, bd.maxIt)
+			out = append(out, fmt.Sprintf("C10|sg|%s|%s|%s|%s|%s|%s:rounds%d", s, hx.H(b.seed), hx.H(msg), hx.H(ctx), rnd, tag, it))
 		}
 		out = append(out, fmt.Sprintf("C10|sg|%s|%s|%s|%s|d|-ctxlong", s, hx.H(b.seed), hx.H(msgOf(r)), hx.H(r.Bytes(256))))
 		// genuine signature, then mutations of it
@@ -700,8 +764,13 @@ func gen(r *hx.Rng, n int, tier string) []string {
 		}
 		// through keyset handles
 		for i := 0; i < bd.ts; i++ {
-			v := []string{"T", "N", "X"}[(i+si)%3]
-			out = append(out, fmt.Sprintf("C10|ts|%s|%s|%d|%s|%s|%s|+", s, v, uint32(r.U64()), hx.H(b.seed), hx.H(msgOf(r)), hx.H(r.Bytes(32))))
+			if tier != "thorough" && si != tsSet {
+				continue
+			}
+			v := []string{"T", "N", "X"}[r.Intn(3)]
+			rb := r.Bytes(32)
+			msg, it := cheapMsg(r, b, nil, rb, bd.maxIt)
+			out = append(out, fmt.Sprintf("C10|ts|%s|%s|%d|%s|%s|%s|+rounds%d", s, v, uint32(r.U64()), hx.H(b.seed), hx.H(msg), hx.H(rb), it))
 		}
 		for i := 0; i < bd.tv; i++ {
 			v := []string{"T", "N", "X"}[(i+si+1)%3]
@@ -741,7 +810,9 @@ func gen(r *hx.Rng, n int, tier string) []string {
 			if tier != "thorough" && si != phSet {
 				continue
 			}
-			out = append(out, fmt.Sprintf("C10|ph|%s|%d|%s|%s|%s|+", s, uint32(r.U64()), hx.H(b.seed), hx.H(msgOf(r)), hx.H(r.Bytes(32))))
+			rb := r.Bytes(32)
+			msg, it := cheapMsg(r, b, nil, rb, bd.maxIt)
+			out = append(out, fmt.Sprintf("C10|ph|%s|%d|%s|%s|%s|+rounds%d", s, uint32(r.U64()), hx.H(b.seed), hx.H(msg), hx.H(rb), it))
 		}
 	}
 	rest := n - len(out)
